@@ -32,6 +32,11 @@ func sameAddr(a, b ssa.Value) bool {
 	if ok1 && ok2 {
 		return fa.Field == fb.Field && sameAddr(fa.X, fb.X)
 	}
+	ia, ok1 := a.(*ssa.IndexAddr)
+	ib, ok2 := b.(*ssa.IndexAddr)
+	if ok1 && ok2 {
+		return sameValue(ia.Index, ib.Index) && (ia.X == ib.X || sameLoad(ia.X, ib.X))
+	}
 	return false
 }
 
